@@ -208,11 +208,9 @@ func (c *Conn) waitCloseHandshake() error {
 	defer c.readMu.unlock()
 	verifPoint(c, "waitCloseHandshake.locked")
 
-	for i := int64(0); i < c.msgReader.payloadLength; i++ {
-		_, err := c.br.ReadByte()
-		if err != nil {
-			return err
-		}
+	err = c.discardPayload(ctx, c.msgReader.payloadLength)
+	if err != nil {
+		return err
 	}
 
 	for {
@@ -221,13 +219,29 @@ func (c *Conn) waitCloseHandshake() error {
 			return err
 		}
 
-		for i := int64(0); i < h.payloadLength; i++ {
-			_, err := c.br.ReadByte()
-			if err != nil {
-				return err
-			}
+		err = c.discardPayload(ctx, h.payloadLength)
+		if err != nil {
+			return err
 		}
 	}
+}
+
+// discardPayload reads and drops n bytes of frame payload. It goes through
+// readFramePayload so that, unlike reading c.br directly, it is bounded by ctx.
+func (c *Conn) discardPayload(ctx context.Context, n int64) error {
+	var b [512]byte
+	for n > 0 {
+		p := b[:]
+		if int64(len(p)) > n {
+			p = p[:n]
+		}
+		m, err := c.readFramePayload(ctx, p)
+		n -= int64(m)
+		if err != nil {
+			return err
+		}
+	}
+	return nil
 }
 
 func (c *Conn) waitGoroutines() error {
